@@ -26,7 +26,7 @@ def toks(*items):
 STRICT = '{MkOpts(FALSE, FALSE)}'
 ALLOPTS = 'AllOpts'
 
-TREE_INVS = ['Dump', 'OneCharPerStep', 'CodeMapOK', 'ErrorPointsAtInput', 'ConservativeExtension']
+TREE_INVS = ['Dump', 'OneCharPerStep', 'CodeMapOK', 'ErrorPointsAtInput', 'ConservativeExtension', 'Viable']
 
 # name -> (alphabet, prefix, suffix, optset, {tier: maxlen})
 PARSER_TREES = {
@@ -66,6 +66,9 @@ PARSER_TREES = {
     # tokens with whitespace and multi-byte characters: code-map spans
     'tokens': dict(alpha=toks('[', ']', '{', '}', ',', ':', ' ', '"\u00e9"', '"\\u00e9\U0001F600"', '-1.5e3', 'true', '\r\n'),
                    prefix='', suffix='', opts=STRICT, maxlen={'quick': 6, 'thorough': 7}),
+    # near-miss whitespace around a value (VT, FF, NEL, NBSP, U+2028, BOM, ZWSP): only space, tab, LF, CR are JSON whitespace
+    'ws': dict(alpha=toks(' ', '\t', '\r', '\n', '\x0b', '\x0c', '\x85', '\xa0', '\u2028', '\ufeff', '\u200b', '\u3000', '1', 'null', '[', ']'),
+               prefix='', suffix='', opts=STRICT, maxlen={'quick': 4, 'thorough': 5}),
     # nested objects/arrays: entries, duplicate keys, empty containers
     'nest': dict(alpha=toks('{"a":', '{"b":', '"a":', '[', ']', '}', ',', '{}', '[]', '1', ' '),
                  prefix='', suffix='', opts=STRICT, maxlen={'quick': 6, 'thorough': 8}),
